@@ -366,22 +366,27 @@ needed_versions_case!(c04_part_needed_versions_need_13_x, 0b1010);
 needed_versions_case!(c04_part_needed_versions_need_23_x, 0b1100);
 needed_versions_case!(c04_part_needed_versions_need_123_x, 0b1110);
 fn part_needed_versions(our_need: u32) {
+    // every in-scope variable of the loop body is a parameter of the block slices (a change may
+    // start using any of them): the peer's head is arbitrary, what it holds lies within 1..=head
+    let head: u64 = kani::any();
+    kani::assume(1 <= head && head <= N);
     let haves_mask: u32 = kani::any();
-    kani::assume(haves_mask & !bits(1, N) == 0);
+    kani::assume(haves_mask & !bits(1, head) == 0);
+    let theirs = SyncStateV1 { actor_id: PEER, ..Default::default() };
     let mut ours = SyncStateV1 { actor_id: SELF, ..Default::default() };
     if our_need != 0 {
         ours.need.insert(A, runs(our_need, 1, N, CrsqlDbVersion));
     }
     let haves = set_of_mask(haves_mask, 1, N, CrsqlDbVersion);
     let mut needs: HashMap<ActorId, Vec<SyncNeedV1>> = HashMap::new();
-    ours.request_needed_versions_the_peer_has(&A, &haves, &mut needs);
-    let req = fold_requests(&needs, A, N);
+    ours.request_needed_versions_the_peer_has(&theirs, &A, &CrsqlDbVersion(head), &haves, &mut needs);
+    let req = fold_requests(&needs, A, head);
     assert!(req.partial_entries == 0);
     assert!(our_need & haves_mask & !req.full == 0, "C04: a version the peer holds and we lack is not requested");
     assert!(req.full & !(our_need & haves_mask) == 0, "C04: a version requested that we do not need or the peer does not hold");
     kani::cover!(req.full != 0, "something requested");
     kani::cover!(req.full != our_need, "not all of our need is available");
-    core::mem::forget((ours, haves, needs));
+    core::mem::forget((ours, theirs, haves, needs));
 }
 
 /// versions beyond our head: (our head, peer head] is requested iff the peer is ahead
@@ -394,12 +399,14 @@ fn c04_part_versions_beyond_our_head_requested() {
         ours.heads.insert(A, CrsqlDbVersion(our_head));
     }
     let mut needs: HashMap<ActorId, Vec<SyncNeedV1>> = HashMap::new();
-    ours.request_versions_beyond_our_head(&A, &CrsqlDbVersion(their_head), &mut needs);
+    let theirs = SyncStateV1 { actor_id: PEER, ..Default::default() };
+    let haves: RangeInclusiveSet<CrsqlDbVersion> = RangeInclusiveSet::new();
+    ours.request_versions_beyond_our_head(&theirs, &A, &CrsqlDbVersion(their_head), &haves, &mut needs);
     let req = fold_requests(&needs, A, their_head);
     assert!(req.full == bits(our_head + 1, their_head), "C04: versions beyond our head up to the peer's head are not requested exactly");
     kani::cover!(req.full != 0, "peer ahead");
     kani::cover!(needs.get(&A).is_none(), "peer not ahead");
-    core::mem::forget((ours, needs));
+    core::mem::forget((ours, theirs, haves, needs));
 }
 
 /// partially held version: the peer holds it completely → all our missing sequences;
@@ -433,8 +440,10 @@ fn part_missing_sequences_of(peer_partial_too: bool, our_missing: u32) {
     m.insert(CrsqlDbVersion(pv), runs(our_missing, 0, M, CrsqlSeq));
     ours.partial_need.insert(A, m);
     let mut theirs = SyncStateV1 { actor_id: PEER, ..Default::default() };
+    let head: u64 = kani::any();
+    kani::assume(1 <= head && head <= N && (!peer_partial_too || pv <= head));
     let haves_mask: u32 = kani::any();
-    kani::assume(haves_mask & !bits(1, N) == 0);
+    kani::assume(haves_mask & !bits(1, head) == 0);
     let their_missing: u32 = kani::any();
     if peer_partial_too {
         kani::assume(their_missing != 0 && their_missing & !bits(0, M) == 0);
@@ -445,7 +454,7 @@ fn part_missing_sequences_of(peer_partial_too: bool, our_missing: u32) {
     }
     let haves = set_of_mask(haves_mask, 1, N, CrsqlDbVersion);
     let mut needs: HashMap<ActorId, Vec<SyncNeedV1>> = HashMap::new();
-    ours.request_missing_sequences(&theirs, &A, &haves, &mut needs);
+    ours.request_missing_sequences(&theirs, &A, &CrsqlDbVersion(head), &haves, &mut needs);
     let req = fold_requests(&needs, A, N);
     assert!(req.full == 0);
     if haves_mask & (1 << pv) != 0 {
